@@ -9,7 +9,7 @@ from .. import report as R
 from ..report import RuleSpec
 from .. import codec as C
 from .common import (call_name, CTL, CONVERTERS, conv_qual, converter_entries, fn_loc, short, unparse, attr_chain,
-                     concrete_classes)
+                     concrete_classes, inline_locals)
 
 CAST = "reamber.algorithms.convert.ConvertBase.ConvertBase.cast"
 CORE = {
@@ -212,6 +212,21 @@ def _loops(fn_node) -> List[ast.For]:
     return [n for n in walk_no_nested(fn_node) if isinstance(n, ast.For)]
 
 
+def _chart_var(lp: ast.For, src: str):
+    """the variable that names one chart when ``lp`` walks the source set: `for c in src` and `for i, c in enumerate(src)`"""
+    if isinstance(lp.iter, ast.Name) and lp.iter.id == src:
+        return lp.target if isinstance(lp.target, ast.Name) else None
+    if isinstance(lp.iter, ast.Call) and isinstance(lp.iter.func, ast.Name) and lp.iter.func.id == "enumerate" and len(lp.iter.args) == 1 \
+            and not lp.iter.keywords and isinstance(lp.iter.args[0], ast.Name) and lp.iter.args[0].id == src and \
+            isinstance(lp.target, ast.Tuple) and len(lp.target.elts) == 2 and isinstance(lp.target.elts[1], ast.Name):
+        return lp.target.elts[1]
+    return None
+
+
+def _walks_src(lp: ast.For, src: str) -> bool:
+    return (isinstance(lp.iter, ast.Name) and lp.iter.id == src) or _chart_var(lp, src) is not None
+
+
 def rule_r3(ctx) -> List[R.Inst]:
     M = ctx.M
     insts = []
@@ -219,7 +234,7 @@ def rule_r3(ctx) -> List[R.Inst]:
         key = f"{cv.name}.{cv.fn.name}"
         fnode = cv.fn.node
         rets = [n for n in walk_no_nested(fnode) if isinstance(n, ast.Return) and n.value is not None]
-        loops = [lp for lp in _loops(fnode) if isinstance(lp.iter, ast.Name) and lp.iter.id == cv.src_param]
+        loops = [lp for lp in _loops(fnode) if _walks_src(lp, cv.src_param)]
         if not loops:
             # single-chart converter: returns an object constructed in the function
             good = False
@@ -295,6 +310,31 @@ def _mentions_src(expr, srcvars: Dict[str, str], fields: List[str]) -> bool:
     return False
 
 
+def _local_names(fn_node) -> set:
+    return {n.id for n in ast.walk(fn_node) if isinstance(n, ast.Name) and isinstance(n.ctx, ast.Store)}
+
+
+def _tuple_stores(cv):
+    """`a.x, a.y = v, w` and `a.x, a.y = map(f, (v, w))` as the stores (stmt, target, value) they are; value None when the right-hand
+    side does not split by position"""
+    out = []
+    for n in walk_no_nested(cv.fn.node):
+        if not (isinstance(n, ast.Assign) and len(n.targets) == 1 and isinstance(n.targets[0], (ast.Tuple, ast.List))):
+            continue
+        ts = n.targets[0].elts
+        v = n.value
+        parts = None
+        if isinstance(v, (ast.Tuple, ast.List)) and len(v.elts) == len(ts) and not any(isinstance(e, ast.Starred) for e in v.elts):
+            parts = list(v.elts)
+        elif isinstance(v, ast.Call) and isinstance(v.func, ast.Name) and v.func.id == "map" and len(v.args) == 2 and not v.keywords and \
+                isinstance(v.args[1], (ast.Tuple, ast.List)) and len(v.args[1].elts) == len(ts):
+            parts = [ast.Call(func=v.args[0], args=[e], keywords=[]) for e in v.args[1].elts]
+        for i, t in enumerate(ts):
+            if isinstance(t, ast.Attribute) and cv.ty.kind(t.value)[0] in ("chart", "mapset"):
+                out.append((n, t, parts[i] if parts else None))
+    return out
+
+
 def rule_r4(ctx) -> List[R.Inst]:
     M = ctx.M
     insts = []
@@ -303,21 +343,33 @@ def rule_r4(ctx) -> List[R.Inst]:
         # variables denoting the source: the parameter and loop variables over it
         srcvars = {cv.src_param: "set"}
         for lp in _loops(cv.fn.node):
-            if isinstance(lp.iter, ast.Name) and lp.iter.id == cv.src_param and isinstance(lp.target, ast.Name):
-                srcvars[lp.target.id] = "chart"
+            if _chart_var(lp, cv.src_param) is not None:
+                srcvars[_chart_var(lp, cv.src_param).id] = "chart"
         for role in ("title", "artist", "creator", "diffname"):
             if role not in sroles or role not in troles:
                 continue
             key = f"{cv.name}.{cv.fn.name}:{role}"
-            cands = [(stmt, t) for stmt, t, bk in cv.stores if bk[0] in ("chart", "mapset") and t.attr in troles[role]]
-            hit = [(stmt, t) for stmt, t in cands if _mentions_src(stmt.value, srcvars, sroles[role])]
+            cands = [(stmt, t, stmt.value) for stmt, t, bk in cv.stores if bk[0] in ("chart", "mapset") and t.attr in troles[role]]
+            cands += [c for c in _tuple_stores(cv) if c[1].attr in troles[role]]
+            # a local bound once reads as its value: `title = enc(src.title)` hoisted out of the chart loop
+            vals = [(stmt, t, None if v is None else inline_locals(cv.fn.node, v)) for stmt, t, v in cands]
+            hit = [(stmt, t) for stmt, t, v in vals if v is not None and _mentions_src(v, srcvars, sroles[role])]
             if hit:
                 insts.append(R.ok("C08.R4", key, cv.file, hit[0][0].lineno,
                                   idiom=f"{unparse(hit[0][1])} <- source {sroles[role]}"))
             elif cands:
-                insts.append(R.viol("C08.R4", key, cv.file, cands[0][0].lineno,
-                                    f"target {role} is assigned from {unparse(cands[0][0].value)!r}, not from the source's "
-                                    f"{'/'.join(sroles[role])}", construct=unparse(cands[0][0])[:160]))
+                stmt, t, v = vals[0]
+                params = set(params_of(cv.fn.node))
+                unknown = v is None or [n.id for n in ast.walk(v) if isinstance(n, ast.Name) and n.id in _local_names(cv.fn.node) - params
+                                        and n.id not in srcvars]
+                if unknown:
+                    insts.append(R.undec("C08.R4", key, cv.file, stmt.lineno,
+                                         f"target {role} is assigned from {unparse(stmt.value)[:80]!r}; where "
+                                         f"{'that value' if v is None else '/'.join(sorted(set(unknown)))} comes from is not resolved"))
+                    continue
+                insts.append(R.viol("C08.R4", key, cv.file, stmt.lineno,
+                                    f"target {role} is assigned from {unparse(stmt.value)!r}, not from the source's "
+                                    f"{'/'.join(sroles[role])}", construct=unparse(stmt)[:160]))
             else:
                 insts.append(R.viol("C08.R4", key, cv.file, cv.fn.node.lineno,
                                     f"target {role} ({'/'.join(troles[role])}) is never assigned: the source's "
